@@ -195,7 +195,7 @@ func c09(c *wk.Ctx) {
 			c.Sample(map[string]interface{}{"stream": "mutant", "input": in, "accepted": acc})
 		}
 	})
-	c.Cases("random", c.Pick(15000, 200000), func(i int, rng *rand.Rand) {
+	c.Cases("random", c.Pick(15000, 120000), func(i int, rng *rand.Rand) {
 		var in string
 		switch i % 5 {
 		case 0: // raw bytes
@@ -210,12 +210,12 @@ func c09(c *wk.Ctx) {
 			}
 			in = string(b)
 		case 3: // deep nesting, balanced or not
-			d := 1 + rng.Intn(c.Pick(2000, 30000))
+			d := 1 + rng.Intn(c.Pick(2000, 5000))
 			open := []string{"[", "(", "{s", "(i"}[rng.Intn(4)]
 			cl := map[string]string{"[": "]", "(": ")", "{s": "}", "(i": ")"}[open]
 			in = strings.Repeat(open, d) + "i" + strings.Repeat(cl, d-rng.Intn(2))
 		case 4: // long flat
-			n := rng.Intn(c.Pick(4000, 60000))
+			n := rng.Intn(c.Pick(4000, 12000))
 			in = "(" + strings.Repeat("i", n) + ")"
 			if rng.Intn(2) == 0 {
 				in += "<S" + strings.Repeat(",a", n) + ">"
